@@ -287,6 +287,12 @@ def _r113(ck, prog, cfg):
     dels = [(b, t) for b, t in ars.calls() if is_callee(t, r"ReplicatedShardedState::<T>::apply_remote_deltas$")]
     ck.check(len(dels) == 1 and all(ars.dominates(dels[0][0], e) for e in ars.exits()), "R11.3", "deltas-through-merge-path" + _tag(cfg),
              "recovered deltas are not always applied through apply_remote_deltas", ars.where(), detail="apply_remote_deltas on all paths")
+    for db, dt in dels:
+        a = src_of_operand(ars, dt["args"][1])
+        ck.check(a.kind == "path" and a.local is not None and a.local <= ars.d["argc"] and not a.fields, "R11.3", "deltas-handed-over-as-recovered" + _tag(cfg),
+                 "apply_recovered_state does not pass the recovered deltas to apply_remote_deltas as it received them (%s): picking, "
+                 "collapsing or reordering them replaces the merge of all persisted updates of a key by one of them" % a.path(),
+                 ars.where(dt["ln"]), detail="apply_remote_deltas(deltas) with the parameter itself")
     # the merging ingest
     ing = prog.one("replication::state::shard_state::ShardReplicaState::apply_remote_delta")
     m = [(b, t) for b, t in ing.calls() if is_callee(t, r"ReplicatedValue::merge$")]
